@@ -24,10 +24,12 @@ noncomputable def centreR (n k z : ℝ) : ℝ :=
 /-- the value of the model's `wilsonSpan` at exact arithmetic -/
 noncomputable def spanR (n k z : ℝ) : ℝ :=
   (wilsonSpan (⟨n⟩ : Rex) ⟨k⟩ ⟨z⟩).val
-/-- lower end `centre − span` exactly as `Proportion.finish` forms it -/
+/-- lower end `centre − span` exactly as `Proportion.finish` forms it (`Proportion.finishWilson`
+    clamps it at `0`; on the domain it is non-negative, `lowerR_nonneg`) -/
 noncomputable def lowerR (n k z : ℝ) : ℝ :=
   (wilsonCentre (⟨n⟩ : Rex) ⟨k⟩ ⟨z⟩).val - (wilsonSpan (⟨n⟩ : Rex) ⟨k⟩ ⟨z⟩).val
-/-- upper end `centre + span` exactly as `Proportion.finish` forms it -/
+/-- upper end `centre + span` exactly as `Proportion.finish` forms it (`Proportion.finishWilson`
+    clamps it at `1`; on the domain it is at most `1`, `upperR_le_one`) -/
 noncomputable def upperR (n k z : ℝ) : ℝ :=
   (wilsonCentre (⟨n⟩ : Rex) ⟨k⟩ ⟨z⟩).val + (wilsonSpan (⟨n⟩ : Rex) ⟨k⟩ ⟨z⟩).val
 
@@ -512,16 +514,19 @@ theorem spanR_shrink (n k z m : ℝ) (hn : 0 < n) (hz : 0 < z) (hk0 : 0 ≤ k) (
 
 /-! ### the model function `ciWilson` at `Rex` -/
 
-theorem new_ok (a b : Rex) (h : a.val ≤ b.val) : Interval.new a b = .ok (.twoSided a b) := by
+theorem new_ok {fl : ℝ → ℝ} (a b : RR fl) (h : a.val ≤ b.val) :
+    Interval.new a b = .ok (.twoSided a b) := by
   have hg : gt a b = false := by
     rw [← Bool.not_eq_true, RR.gt_iff]; exact not_lt.mpr h
   simp [Interval.new, hg]
 
-theorem new_err (a b : Rex) (h : b.val < a.val) : Interval.new a b = .error .invalidBounds := by
+theorem new_err {fl : ℝ → ℝ} (a b : RR fl) (h : b.val < a.val) :
+    Interval.new a b = .error .invalidBounds := by
   have hg : gt a b = true := by rw [RR.gt_iff]; exact h
   simp [Interval.new, hg]
 
-/-- the three shapes `Proportion.finish` returns, with ends given by the real functions -/
+/-- the three shapes `Proportion.finish` (and, on proportions, the clamped `Proportion.finishWilson`)
+    returns, with ends given by the real functions -/
 noncomputable def shape (conf : Confidence Rex) (n k z : ℝ) : Interval Rex :=
   match conf with
   | .twoSided _ => .twoSided ⟨lowerR n k z⟩ ⟨upperR n k z⟩
@@ -565,6 +570,8 @@ theorem ciWilson_eq (crit : Crit Rex) (conf : Confidence Rex) (n k : ℕ) (hk : 
   have hl0 := lowerR_nonneg n k z hn hz hk0 hkn'
   have hu1 := upperR_le_one n k z hn hz hk0 hkn'
   simp only [ciWilson, h1, h2, h3, if_false, zValue, hq, if_true, Outcome.bind_ok]
+  -- both roots are proportions, so the clamp of `ci_wilson` is the identity
+  rw [finishWilson_eq_finish _ _ _ (by exact hl0) (by exact hu1)]
   cases conf with
   | twoSided l =>
     simp only [finish, shape]
@@ -632,31 +639,101 @@ theorem ciWilson_mirror (crit : Crit Rex) (conf : Confidence Rex) (n k : ℕ) (h
   generalize wilsonSpan (Scalar.ofNat n : Rex) (Scalar.ofNat (n - k)) z = s' at hs
   generalize wilsonCentre (Scalar.ofNat n : Rex) (Scalar.ofNat k) z = c at hc
   generalize wilsonSpan (Scalar.ofNat n : Rex) (Scalar.ofNat k) z = s at hs
+  -- the clamped ends mirror each other: `max (1 - c - s) 0 = 1 - min (c + s) 1` and
+  -- `min (1 - c + s) 1 = 1 - max (c - s) 0`
+  have hlo : (fmax (NumOps.sub c' s') (NumOps.zero : Rex)).val
+      = 1 - (fmin (NumOps.add c s) (NumOps.one : Rex)).val := by
+    rw [fmax_val, fmin_val]
+    simp only [RR.sub_val, RR.add_val, RR.zero_val, RR.one_val, id, hc, hs]
+    rcases le_total (c.val + s.val) 1 with h | h
+    · rw [min_eq_left h, max_eq_left (by linarith)]; ring
+    · rw [min_eq_right h, max_eq_right (by linarith)]; ring
+  have hhi : (fmin (NumOps.add c' s') (NumOps.one : Rex)).val
+      = 1 - (fmax (NumOps.sub c s) (NumOps.zero : Rex)).val := by
+    rw [fmax_val, fmin_val]
+    simp only [RR.sub_val, RR.add_val, RR.zero_val, RR.one_val, id, hc, hs]
+    rcases le_total 0 (c.val - s.val) with h | h
+    · rw [max_eq_left h, min_eq_left (by linarith)]; ring
+    · rw [max_eq_right h, min_eq_right (by linarith)]; ring
+  simp only [finishWilson]
+  generalize fmax (NumOps.sub c' s') (NumOps.zero : Rex) = lo' at hlo
+  generalize fmin (NumOps.add c' s') (NumOps.one : Rex) = hi' at hhi
+  generalize fmin (NumOps.add c s) (NumOps.one : Rex) = hi at hlo
+  generalize fmax (NumOps.sub c s) (NumOps.zero : Rex) = lo at hhi
   cases conf with
   | twoSided l =>
-    simp only [Confidence.flipped, finish]
-    by_cases h : s.val < 0
-    · rw [new_err _ _ (by simp; linarith), new_err _ _ (by simp; linarith)]; rfl
-    · have h : 0 ≤ s.val := not_lt.mp h
-      rw [new_ok _ _ (by simp; linarith), new_ok _ _ (by simp; linarith)]
+    simp only [Confidence.flipped]
+    by_cases h : hi.val < lo.val
+    · rw [new_err _ _ (by linarith), new_err _ _ (by linarith)]; rfl
+    · have h : lo.val ≤ hi.val := not_lt.mp h
+      rw [new_ok _ _ (by linarith), new_ok _ _ (by linarith)]
       simp only [liftI, Outcome.map, mirrorI, Interval.appliedFlipped]
       congr 2 <;> apply RR.ext' <;> simp <;> linarith
   | upper l =>
-    simp only [Confidence.flipped, finish]
-    by_cases h : 1 < c.val - s.val
+    simp only [Confidence.flipped]
+    by_cases h : 1 < lo.val
     · rw [new_err _ _ (by simp; linarith), new_err _ _ (by simp; linarith)]; rfl
-    · have h : c.val - s.val ≤ 1 := not_lt.mp h
+    · have h : lo.val ≤ 1 := not_lt.mp h
       rw [new_ok _ _ (by simp; linarith), new_ok _ _ (by simp; linarith)]
       simp only [liftI, Outcome.map, mirrorI, Interval.appliedFlipped]
       congr 2 <;> apply RR.ext' <;> simp <;> linarith
   | lower l =>
-    simp only [Confidence.flipped, finish]
-    by_cases h : c.val + s.val < 0
+    simp only [Confidence.flipped]
+    by_cases h : hi.val < 0
     · rw [new_err _ _ (by simp; linarith), new_err _ _ (by simp; linarith)]; rfl
-    · have h : 0 ≤ c.val + s.val := not_lt.mp h
+    · have h : 0 ≤ hi.val := not_lt.mp h
       rw [new_ok _ _ (by simp; linarith), new_ok _ _ (by simp; linarith)]
       simp only [liftI, Outcome.map, mirrorI, Interval.appliedFlipped]
       congr 2 <;> apply RR.ext' <;> simp <;> linarith
+
+/-! ### the clamp of `ci_wilson` on a rounded carrier -/
+
+theorem liftI_new_ok {fl : ℝ → ℝ} (a b : RR fl) (I : Interval (RR fl))
+    (h : (liftI (Interval.new a b) : Outcome (Err (RR fl)) (Interval (RR fl))) = .ok I) :
+    I = .twoSided a b ∧ a.val ≤ b.val := by
+  by_cases hg : b.val < a.val
+  · have hgt : gt a b = true := by rw [RR.gt_iff]; exact hg
+    simp [Interval.new, hgt, liftI] at h
+  · have hgt : gt a b = false := by rw [← Bool.not_eq_true, RR.gt_iff]; exact hg
+    simp only [Interval.new, hgt, liftI] at h
+    simp only [Bool.false_eq_true, if_false, Outcome.ok.injEq] at h
+    exact ⟨h.symm, not_lt.mp hg⟩
+
+/-- the clamped tail of `ci_wilson` on any rounded carrier: an `Ok` result is `[a, b]` with
+    `0 ≤ a ≤ b ≤ 1` -/
+theorem finishWilson_ok_unit {fl : ℝ → ℝ} (conf : Confidence (RR fl)) (m s : RR fl)
+    (I : Interval (RR fl)) (h : finishWilson conf m s = .ok I) :
+    ∃ a b : RR fl, I = .twoSided a b ∧ 0 ≤ a.val ∧ a.val ≤ b.val ∧ b.val ≤ 1 := by
+  have hlo : 0 ≤ (fmax (NumOps.sub m s) (NumOps.zero : RR fl)).val := by
+    rw [fmax_val]; exact le_max_right _ _
+  have hhi : (fmin (NumOps.add m s) (NumOps.one : RR fl)).val ≤ 1 := by
+    rw [fmin_val]; exact min_le_right _ _
+  simp only [finishWilson] at h
+  generalize fmax (NumOps.sub m s) (NumOps.zero : RR fl) = lo at hlo h
+  generalize fmin (NumOps.add m s) (NumOps.one : RR fl) = hi at hhi h
+  cases conf with
+  | twoSided l =>
+    obtain ⟨hI, hle⟩ := liftI_new_ok _ _ _ h
+    exact ⟨_, _, hI, hlo, hle, hhi⟩
+  | upper l =>
+    obtain ⟨hI, hle⟩ := liftI_new_ok _ _ _ h
+    exact ⟨_, _, hI, hlo, hle, le_rfl⟩
+  | lower l =>
+    obtain ⟨hI, hle⟩ := liftI_new_ok _ _ _ h
+    exact ⟨_, _, hI, le_rfl, hle, hhi⟩
+
+/-- every interval `ci_wilson` returns lies in `[0, 1]`, whatever the rounding function, the level
+    and the value the quantile routine returns -/
+theorem ciWilson_ok_unit {fl : ℝ → ℝ} (crit : Crit (RR fl)) (conf : Confidence (RR fl)) (n k : ℕ)
+    (I : Interval (RR fl)) (h : ciWilson crit conf n k = .ok I) :
+    ∃ a b : RR fl, I = .twoSided a b ∧ 0 ≤ a.val ∧ a.val ≤ b.val ∧ b.val ≤ 1 := by
+  unfold ciWilson at h
+  split_ifs at h with h1 h2 h3
+  unfold zValue at h
+  by_cases hp : probOk conf.quantile = true
+  · simp only [hp, if_true, Outcome.bind_ok] at h
+    exact finishWilson_ok_unit _ _ _ _ h
+  · simp [hp] at h
 
 /-! ### order statistics of a sorted list -/
 
